@@ -14,6 +14,8 @@ Operator classes (the ones the blind seeding rounds kept producing):
   plusminus1   `e + 1` -> `e`, `e - 1` -> `e`                              (off by one)
   nocopy       `x.copy()` -> `x`, `copy=True` -> `copy=False`,
                `np.array(x, ...)` -> `np.asarray(x, ...)`                  (result or scratch aliases the caller's array)
+  arith        `+` <-> `-`, `*` <-> `/`          boolop  `and` <-> `or`          unary  a leading `-` / `not` dropped
+               (is every computed quantity judged by some oracle?)
 
 usage: selftest/opsweep.py [--files substr,...] [--classes a,b] [--jobs 4] [--limit N] [--resume]
 Results: selftest/opsweep.json (one record per site, keyed file:line:col:class); tools/opsweep_table.py summarises.
@@ -40,6 +42,8 @@ FILEMAP = {"stat/util.py": ["C05", "C14", "C18"], "numpy_util.py": ["C06", "C07"
            "random.py": ["C19"], "algorithm.py": ["C20"], "pbar.py": ["C20"], "io.py": ["C01", "C04"]}
 SWAP = {ast.Lt: "<=", ast.LtE: "<", ast.Gt: ">=", ast.GtE: ">"}
 TOK = {ast.Lt: "<", ast.LtE: "<=", ast.Gt: ">", ast.GtE: ">="}
+ARITH = {ast.Add: "-", ast.Sub: "+", ast.Mult: "/", ast.Div: "*"}
+TOKA = {ast.Add: "+", ast.Sub: "-", ast.Mult: "*", ast.Div: "/"}
 
 
 def seg(lines, node):
@@ -79,7 +83,28 @@ def sites(relfile, src):
             left = seg(lines, node.left)
             if left is not None:
                 add(node, "plusminus1", "(%s)" % left, "%s 1 dropped" % ("+" if isinstance(node.op, ast.Add) else "-"))
-        elif isinstance(node, ast.Call):
+        if isinstance(node, ast.BinOp) and type(node.op) in ARITH and node.lineno == node.end_lineno:
+            strs = [isinstance(x, ast.Constant) and isinstance(x.value, (str, bytes)) or isinstance(x, ast.JoinedStr) for x in (node.left, node.right)]
+            lt, rt = seg(lines, node.left), seg(lines, node.right)
+            if not any(strs) and lt is not None and rt is not None:
+                # the operator token sits between the operands
+                between = lines[node.lineno - 1][node.left.end_col_offset:node.right.col_offset]
+                tok = TOKA[type(node.op)]
+                if between.count(tok) == 1 and between.strip("() ") == tok:
+                    out.append({"file": relfile, "line": node.lineno, "col": node.left.end_col_offset, "end": node.right.col_offset, "class": "arith",
+                                "old": between, "new": between.replace(tok, ARITH[type(node.op)]), "what": "%s -> %s" % (tok, ARITH[type(node.op)])})
+        elif isinstance(node, ast.BoolOp) and len(node.values) == 2 and node.lineno == node.end_lineno:
+            a_, b_ = node.values
+            between = lines[node.lineno - 1][a_.end_col_offset:b_.col_offset]
+            tok = "and" if isinstance(node.op, ast.And) else "or"
+            if between.strip("() ") == tok:
+                out.append({"file": relfile, "line": node.lineno, "col": a_.end_col_offset, "end": b_.col_offset, "class": "boolop",
+                            "old": between, "new": between.replace(tok, "or" if tok == "and" else "and"), "what": "and <-> or"})
+        elif isinstance(node, ast.UnaryOp) and isinstance(node.op, (ast.USub, ast.Not)) and not isinstance(node.operand, ast.Constant):
+            inner = seg(lines, node.operand)
+            if inner is not None:
+                add(node, "unary", "(%s)" % inner, "unary %s dropped" % ("-" if isinstance(node.op, ast.USub) else "not"))
+        if isinstance(node, ast.Call):
             f = node.func
             if isinstance(f, ast.Attribute) and f.attr == "copy" and not node.args and not node.keywords:
                 base = seg(lines, f.value)
